@@ -447,7 +447,8 @@ func (p *c06Printer) emitScalar(path string, k c06Kind, keyIndent0 int, flow, al
 	v := c06Value(r, k)
 
 	if anchorName != "" {
-		p.w("&" + anchorName + " ")
+		// blanks between the anchor and the scalar: spaces or a tab (stratum: the scanner must skip both)
+		p.w("&" + anchorName + pick(r, []string{" ", " ", "  ", "\t", " \t "}))
 		f.C0 = p.col()
 	}
 	finish := func() c06Field {
@@ -1147,7 +1148,7 @@ func c06GenDoc(r *rand.Rand) c06Doc {
 			if d == depth-1 {
 				hdr = []string{"apiVersion: v1", "kind: ConfigMap", "data:", "  rules.yml: |"}
 			}
-			ind := pick(r, []int{4, 4, 6, 3})
+			ind := pick(r, []int{4, 4, 6, 3, 4, 6, 3, 70}) // 70: column offsets far beyond any rule's own indentation
 			out := append([]string{}, hdr...)
 			for _, l := range cur {
 				if l == "" {
